@@ -145,7 +145,7 @@ SPEC_FUNCS = {'dict_arrays_equal', 'is_namedtuple', 'is_function', 'uf', 'ghost_
               'unit', 'concat', 'nth', 'truthy', 'callable_', 'is_exact', 'dict_unchanged', 'list_unchanged',
               'fields_unchanged', 'none_', 'ghost', 'is_dict', 'is_list', 'is_tuple', 'is_set', 'bound_method',
               'isinstance_sym', 'enum', 'set_has', 'older', 'heap_unchanged', 'same_class', 'issubclass_of',
-              'setlen', 'str_', 'eq', 'ident', 'func', 'has_attr_decl', 'label_of', 'allowed', 'class_level_name', 'is_foreign'}
+              'setlen', 'str_', 'eq', 'ident', 'func', 'has_attr_decl', 'label_of', 'allowed', 'class_level_name', 'is_foreign', 'nonplain_member_name'}
 
 
 class SpecMixin:
@@ -812,6 +812,20 @@ class SpecMixin:
         t = self.to_term(st, a)
         return BoolTermV(AND(is_ref(t), r_of(t) >= I(self.index.first_free_id),
                              z3.Select(st.CL, r_of(t)) >= I(self.index.first_free_id)))
+
+    def sf_nonplain_member_name(self, st, node, env, cmod):
+        """nonplain_member_name(obj, name): `name` is a property / static method / class method of the static class of obj (getattr
+        would run or return something other than a bound method or the instance attribute)"""
+        obj, name = self._args(st, node, env, cmod)
+        nm = s_of(self.to_term(st, name))
+        ci = obj.cls if isinstance(obj, SV) else None
+        if ci is None:
+            return BoolTermV(FALSE)
+        names = set()
+        for k in ci.mro:
+            if not k.external:
+                names.update(n_ for n_, f_ in k.methods.items() if f_.kind != 'method')
+        return BoolTermV(OR(*[nm == S(m) for m in sorted(names)]) if names else FALSE)
 
     def sf_class_level_name(self, st, node, env, cmod):
         """class_level_name(obj, name): `name` is defined at class level (method, property, static/class method) by the
